@@ -20,7 +20,7 @@ mutual
 def evalC (ops : OpSem) : Nat → Val → Val → Res
   | 0, _, _ => .error .fuel
   | _+1, .atom b, env => Path.lookup b env
-  | n+1, .pair (.pair x xr) args, env =>
+  | n+1, .pair (.pair x xr) args, _env =>
     -- `((X) . args)`: `get_args::<1>` on the head list, X must be an atom; args are NOT evaluated
     match xr, x with
     | .atom _, .atom xb => applyC ops n xb args
